@@ -44,7 +44,9 @@ VrsWellFormed(r) ==
         At(id) == {k \in DOMAIN v : v[k].id = id}
         nsr == At("NSR02") \cup At("NSR03")
     IN  /\ Len(v) >= 3
-        /\ \A k \in DOMAIN v : v[k].sector = 15 + k /\ v[k].version = 1
+        \* (an ISO9660:1999 enhanced volume descriptor is a CD001 structure of version 2)
+        /\ \A k \in DOMAIN v : v[k].sector = 15 + k
+                                /\ (v[k].version = 1 \/ (v[k].id = "CD001" /\ v[k].type = 2 /\ v[k].version = 2))
         /\ Cardinality(At("BEA01")) = 1 /\ Cardinality(nsr) = 1 /\ Cardinality(At("TEA01")) = 1
         /\ \E b \in At("BEA01"), n \in nsr, t \in At("TEA01") :
               /\ b < n /\ n < t
